@@ -87,6 +87,15 @@ Fixpoint loop_fuel {S : Type} (fuel : nat) (body : S -> res (bool * S)) (s : S) 
   | S f => let* (go_on, s') := body s in if go_on then loop_fuel f body s' else Ok s'
   end.
 
+(* `for x in list { body }` whose body may leave the function (`return`): the body yields the new loop variables (inl) or the
+   function's result (inr), which ends the loop *)
+Fixpoint for_each_ret {A S R : Type} (body : A -> S -> res (S + R)) (l : list A) (s : S) : res (S + R) :=
+  match l with
+  | [] => Ok (inl s)
+  | a :: l' => let* x := body a s in match x with inl s' => for_each_ret body l' s' | inr r => Ok (inr r) end
+  end.
+Definition ret_inr {S R : Type} (x : res R) : res (S + R) := let* v := x in Ok (inr v).
+
 (* `&v[from..]`: panics when `from` is past the end *)
 Definition slice_from {A} (l : list A) (from : Z) : res (list A) :=
   if (0 <=? from) && (from <=? zlength l) then Ok (skipn (Z.to_nat from) l) else Panic PIndex.
